@@ -767,6 +767,13 @@ def run(ctx):
         cases = [gen_random(ctx.rng) for _ in range(min(400, n - done))]
         process(ctx, cases)
         done += len(cases)
+    # 3. histories with protocol calls ("simulate, time-course and protocol calls" in the property text): C14's generator and
+    #    judge through driver op "c14" (same machines + the protocol ops), incl. the R-only checks that the caller's
+    #    time-point array / protocol table are left untouched
+    if len(ctx.violations) <= 10:
+        from . import c14
+
+        c14.process(ctx, [c14.gen_case(ctx.rng) for _ in range(ctx.n(300, 3000) * (1 if ctx.proof_ok or thorough else 4))])
     if (not ctx.proof_ok or ctx.drift) and not ctx.violations:
         ctx.notes.append("proof/correspondence broken: exhaustive length-3 stratum and the random stratum above were the failing-input search")
 
@@ -777,6 +784,10 @@ def replay(ctx, rp):
         from . import c04grid
 
         return c04grid.replay(ctx, case)
+    if any(o[0] in ("proto", "ptc") for o in case["ops"]):
+        from . import c14
+
+        return c14.replay(ctx, rp)
     (real, drv), = evaluate([case], ctx.driver_ok, parallel=False)
     if drv is not None:
         R, M, S, okhist = assemble(case, real, drv)
